@@ -57,3 +57,13 @@ pub open spec fn map_of(s: Seq<Cell>, n: int) -> Xmap
 {
     if n <= 0 { xmap_empty() } else { xmap_insert(map_of(s, n - 1), s[2 * n - 1], s[2 * n - 2]) }
 }
+
+// the n-th innermost loop frame
+spec fn loop_n(s: &State, n: int) -> Loop { s.loops@[s.loops@.len() - 1 - n] }
+
+spec fn ds_top(s: &State, k: int) -> Cell { s.data_stack@[s.data_stack@.len() - 1 - k] }
+spec fn visible(s: &State, n: int) -> bool { s.data_stack@.len() - s.ctx.ds_len >= n }
+// n operands are replaced by one result, nothing below is touched
+spec fn replaced(old: &State, new: &State, n: int, v: Cell) -> bool {
+    new.data_stack@ == old.data_stack@.take(old.data_stack@.len() - n).push(v)
+}
